@@ -20,6 +20,15 @@ Tie of the protocol model to the code:
               (`Goat.ScopeSignal.conforms`; `Goat.C12.monitor_sound` proves that every history the model can
               produce at quiescence is accepted, so a rejection contradicts the theorems); Wait/Close must report the
               error; the same under the race detector (a reported race on the error list / done channel counts).
+  (5) publish the publication order (harness/cmd/scopesig/pub.go): rounds on a fresh target context (plain / behind
+              a scope / behind a shared child scope / itself isolated) with a chain of 0..3 isolated descendants; waiters
+              blocked on Done() read Err()/Errors() the moment they wake up, pollers spin on IsDone()/Errors()/Err()
+              (contending on errorsMU), 1..3 enders call at once an entry point that ends the scope WITH an error
+              (AppendError variants, Kill, through the context or the scope wrappers); nobody calls Stop, so "done
+              observed => error visible" and "every isolated descendant ends holding Canceled" are clauses about values
+              at the moment of observation (Goat.C12.error_published_before_done / isolated_child_never_stopped prove
+              them for the order record-then-close, close_first_hides_error refutes the swapped order,
+              Goat.Tie.C12.tie_record_then_close reads the order off the source).
 Spec-vs-implementation: every clause above is evaluated on the implementation alone (panic counters, the monitor,
 `_spec_seq` below recomputes the expected answers of a sequential case from its op tokens without the model).
 """
@@ -151,7 +160,20 @@ def _spec_seq(line, impl):
         return "the process died: " + impl[:200]
     n = len(kinds)
     sctx = list(range(n))
-    tagged, kills, ended = [0] * n, [0] * n, [False] * n
+    tagged, kills, ended, prop = [0] * n, [0] * n, [False] * n, [0] * n
+
+    def end(c, with_err):
+        # the context's done signal fires for the first time.  The sequential driver lets the watcher goroutines of
+        # its isolated children act before the next operation: a child that is still alive is killed (one
+        # Canceled) when the parent ended holding an error, stopped otherwise; a child that ended earlier on its
+        # own has no watcher any more.
+        if ended[c]:
+            return
+        ended[c] = True
+        for d in range(n):
+            if kinds[d] == "i%d" % c and not ended[d]:
+                prop[d] = 1 if with_err else 0
+                end(d, with_err)
     for t, r in zip(toks, res):
         k = t[0]
         body = t[1:].split(".")
@@ -159,34 +181,37 @@ def _spec_seq(line, impl):
         if sid >= len(sctx):
             continue
         c = sctx[sid]
-        plain = kinds[c] == "p"
         if k == "a":
             tagged[c] += int(body[1])
-            ended[c] |= int(body[1]) > 0
+            if int(body[1]) > 0:
+                end(c, True)
         elif k == "k":
             kills[c] += 1
-            ended[c] = True
+            end(c, True)
         elif k == "s":
-            ended[c] = True
+            end(c, False)
         elif k == "n":
             sctx.append(c if body[1] == "s" else int(body[1][1:]))
         elif k == "d":
             if ended[c] and r != "t":
-                return "%s: stopped / error appended, but IsDone is false" % t
-            if plain and not ended[c] and r != "f":
-                return "%s: done signal fired on a context nobody stopped and that holds no error" % t
+                return "%s: stopped / error appended / parent ended, but IsDone is false" % t
+            if not ended[c] and r != "f":
+                return "%s: done signal fired on a context nobody stopped, that holds no error and whose parent is alive" % t
         elif k == "e":
             m = re.match(r"^(\d+)\+(\d+)$", r)
             if not m:
                 return "%s: unreadable answer %s" % (t, r)
             if int(m.group(1)) != tagged[c]:
                 return "%s: %d errors appended, %s reported" % (t, tagged[c], m.group(1))
-            lo, hi = kills[c], kills[c] + (0 if plain else 1)
-            if not lo <= int(m.group(2)) <= hi:
-                return "%s: %d Kill calls, %s Canceled reported" % (t, kills[c], m.group(2))
+            if int(m.group(2)) != kills[c] + prop[c]:
+                return ("%s: %d Kill calls%s, %s Canceled reported" % (
+                    t, kills[c], " and a parent that ended with an error while this context was alive" if prop[c] else "",
+                    m.group(2)))
         elif k in "xw":
-            if plain and r not in ("ok:t" if tagged[c] + kills[c] > 0 else "ok:f",):
-                return "%s: Wait/Close answered %s with %d errors held" % (t, r, tagged[c] + kills[c])
+            held = tagged[c] + kills[c] + prop[c]
+            if r != ("ok:t" if held > 0 else "ok:f"):
+                return ("%s: Wait/Close answered %s on a context that must hold %d errors (%d appended, %d Kill calls, "
+                        "%d propagated from a parent that ended with an error)" % (t, r, held, tagged[c], kills[c], prop[c]))
     return None
 
 
@@ -279,6 +304,45 @@ def _stress(ctx, go, model, rounds, maxg, tag, seeds, env=None):
     return problems, summaries, stderrs
 
 
+# ----------------------------------------------------------------------------------------------- publication order
+def _pub(ctx, go, rounds, tag, seeds):
+    """the publication-order oracle in parallel shards; returns (problems, summaries)"""
+    import subprocess
+    procs = []
+    for i, sd in enumerate(seeds):
+        e = ctx.goenv()
+        e["VERIF_SEED"] = str(sd)
+        e.setdefault("GOMEMLIMIT", "4GiB")
+        out = open(ctx.path("%s.%d.out" % (tag, i)), "wb")
+        err = open(ctx.path("%s.%d.err" % (tag, i)), "wb")
+        procs.append((sd, subprocess.Popen([go, "pub", str(rounds)], stdout=out, stderr=err, env=e), out, err))
+    problems, summaries = [], []
+    for i, (sd, p, out, err) in enumerate(procs):
+        try:
+            rc = p.wait(timeout=TMO)
+        except subprocess.TimeoutExpired:
+            p.kill()
+            rc = 124
+        out.close()
+        err.close()
+        replay = "pub %d seed=%d" % (rounds, sd)
+        etxt = open(ctx.path("%s.%d.err" % (tag, i)), errors="replace").read()
+        if rc != 0:
+            first = GO_CRASH.search(etxt)
+            problems.append((replay, "the publication-order process died (%s)" % (first.group(1) if first else "exit %d" % rc),
+                             etxt[-1200:]))
+        cur = None
+        for l in open(ctx.path("%s.%d.out" % (tag, i)), errors="replace"):
+            if l.startswith("FAIL "):
+                cur = [replay, l.strip(), ""]
+                problems.append(cur)
+            elif l.startswith("also ") and cur is not None:
+                cur[2] += l
+            elif l.startswith("pub "):
+                summaries.append(l.strip())
+    return problems, summaries
+
+
 RACE_BLOCK = re.compile(r"WARNING: DATA RACE\n(.*?)\n==================", re.S)
 SIGNAL_FRAME = re.compile(r"contextscope\.\(\*(?:ContextScope|Isolated)\)\.(AppendError|Errors|Err|Stop|Kill|IsDone|Done)|"
                           r"contextscope\.NewIsolated|scope\.\(\*Scope\)\.(AddTasks|DoneTask|Wait)|scope\.NewChild")
@@ -330,6 +394,8 @@ def _run(ctx, go):
     rounds = ctx.pick(2500, 30000)
     race_rounds = ctx.pick(500, 12000)
     nshards = ctx.pick(4, 14)
+    pub_rounds = ctx.pick(10000, 100000)
+    pub_shards = ctx.pick(4, 12)
     ctx.rule = ("gated: 6 two-goroutine scenarios x {plain, isolated}, both goroutines parked right after the IsDone "
                 "test by the verif hook, then released (deterministic).  seq: corpus/C12 + %d generated cases (forest "
                 "of 1..4 contexts, each plain or isolated under an earlier one; 4..25 operations AppendError with 0..3 "
@@ -341,8 +407,12 @@ def _run(ctx, go):
                 "grandchild (profiles mixed / append-only / stop-heavy / kill-heavy / child-heavy / observe-only, "
                 "GOMAXPROCS in {1,2,4,8,16}, a Gosched at every third yield point), one history line per context and "
                 "round decided by the Lean monitor; non-trivial = the context ended and holds an error.  race: the "
-                "same stress built with -race, %d rounds x 2 shards."
-                % (n_seq, nshards, rounds, race_rounds))
+                "same stress built with -race, %d rounds x 2 shards.  publish: %d shards x %d rounds, each a fresh "
+                "target context (plain / scope / shared child scope / isolated) with 0..3 isolated descendants, 1..4 "
+                "waiters per context blocked on Done(), 0..12 pollers spinning on IsDone/Errors/Err, 1..3 concurrent "
+                "error-carrying enders drawn from 7 entry points, GOMAXPROCS in {2,3,4,8,16}, Gosched at yield points "
+                "in half of the rounds; a clause evaluation = one wake-up read, one poller hit or one descendant."
+                % (n_seq, nshards, rounds, race_rounds, pub_shards, pub_rounds))
     concrete = False
 
     # --- corpus + gated scenarios + sequential differential
@@ -422,6 +492,24 @@ def _run(ctx, go):
                                   lines=[o.strip()], annotations=["impl: " + r.strip()], concrete=True)
                     break
 
+    # --- publication order (error recorded before the done signal), decided on the implementation alone
+    pseeds = [ctx.seed * 1000 + 700 + i for i in range(pub_shards)]
+    pproblems, psummaries = _pub(ctx, go, pub_rounds, "pub", pseeds)
+    ptot = _summ(ctx, psummaries, "publish:")
+    ctx.extra["publication_order"] = ptot
+    ctx.evaluations += ptot.get("wakes", 0) + ptot.get("pollhits", 0) + ptot.get("descendants", 0)
+    if psummaries and len(ctx.samples) < 6:
+        ctx.samples.append(dict(op="pub %d seed=%d" % (pub_rounds, pseeds[0]), impl=psummaries[0][:400],
+                                model="failrounds=0 (Goat.C12.error_published_before_done, isolated_child_never_stopped)"))
+    if len(psummaries) != pub_shards and not pproblems:
+        ctx.fatal("publication-order oracle: %d of %d shards reported" % (len(psummaries), pub_shards))
+    for replay, what, extra in pproblems[:3]:
+        concrete = True
+        ctx.violation("impl-vs-spec", "the done signal of a scope that was ended by an error was observed while the "
+                      "error was not (yet) reported by the accessors, or an isolated descendant did not end with an "
+                      "error:\n" + what, lines=[replay],
+                      annotations=[what] + (extra[:1500].split("\n") if extra else []), concrete=True)
+
     # --- stress, decided by the Lean monitor
     seeds = [ctx.seed * 1000 + i for i in range(nshards)]
     problems, summaries, _ = _stress(ctx, go, model, rounds, 64, "stress", seeds)
@@ -481,8 +569,14 @@ def _run(ctx, go):
         "propagation goroutine of NewIsolated, Scope.AddTasks / DoneTask / close / Wait, NewChild",
         "the gate at the verif hook `*.isdone.miss` (harness/cmd/scopesig) and the counting of the propagation "
         "goroutine's branches used to settle sequential cases",
+        "the publication-order oracle explores schedules by contention (pollers on errorsMU, GOMAXPROCS, Gosched), "
+        "not exhaustively; the exhaustive statement is the Lean theorem over the two-step system tied by "
+        "tie_record_then_close",
         "Go race detector (reports, as evidence for the atomicity assumption)",
     ]
+    for k in ("wakes", "pollhits", "descendants"):
+        if not ptot.get(k):
+            ctx.notes.append("coverage gap: the publication-order oracle made no `%s` observation" % k)
     if not ctx.histogram.get("seq:e:n+m"):
         ctx.notes.append("coverage gap: no error list was read in the sequential stream")
 
@@ -508,6 +602,15 @@ def replay(ctx, path):
             if sig:
                 print("race  ", "%d data race(s) on the error list / done channel / wait group" % len(sig))
             if pr or sig:
+                rc = 1
+        elif line.startswith("pub "):
+            f = line.split()
+            pr, summ = _pub(ctx, go, int(f[1]), "replay", [int(f[2].split("=")[1])])
+            for s_ in summ:
+                print("impl  ", s_[:300])
+            for _, what, extra in pr[:5]:
+                print("fail  ", what)
+            if pr:
                 rc = 1
         elif line.startswith("hist "):
             x, y = _one(ctx, go, model, line, "replay")
